@@ -75,20 +75,6 @@ def generate_vasicek(
 
     init_state = cast_state(init_state, dtype, device)
 
-    if init_state[0] != 0:
-        new_init_state = (init_state[0] - theta,)
-        return theta + generate_vasicek(
-            n_paths=n_paths,
-            n_steps=n_steps,
-            init_state=new_init_state,
-            kappa=kappa,
-            theta=0.0,
-            sigma=sigma,
-            dt=dt,
-            dtype=dtype,
-            device=device,
-        )
-
     output = torch.empty(*(n_paths, n_steps), dtype=dtype, device=device)  # type: ignore
     output[:, 0] = init_state[0]
 
@@ -103,6 +89,8 @@ def generate_vasicek(
     for i_step in range(n_steps - 1):
         # Compute \sigma_X: Equation (3.4)
         vola = sigma * ((1 - mu.square()) / 2 / kappa).sqrt()
-        output[:, i_step + 1] = mu * output[:, i_step] + vola * randn[:, i_step]
+        output[:, i_step + 1] = (
+            theta + mu * (output[:, i_step] - theta) + vola * randn[:, i_step]
+        )
 
     return output
